@@ -3,11 +3,15 @@
 set -e
 cd "$(dirname "$0")/coq"
 coq_makefile -f _CoqProject -o Makefile.coq > /dev/null
-timeout 3000 make -f Makefile.coq -j16 2>&1 | grep -v "^COQDEP\|^COQC\|conda" || true
+# -k: a file that no longer compiles (e.g. a proof about a regenerated Gen/*.v after /repo changed) must not
+# keep the files of the other properties from being built; the exit status still reports the failure.
+timeout 3000 make -k -f Makefile.coq -j16 2>&1 | grep -v "^COQDEP\|^COQC\|conda" || true
 # make's exit status (pipe hides it): re-run quietly
-timeout 3000 make -f Makefile.coq -j16 > /dev/null 2>&1
+rc=0
+timeout 3000 make -k -f Makefile.coq -j16 > /dev/null 2>&1 || rc=$?
 if [ -f model.ml ]; then mv -f model.ml model.mli ../ocaml/; fi
 cd ../ocaml
 if [ ! -x driver ] || [ model.ml -nt driver ] || [ driver.ml -nt driver ]; then
   ocamlfind ocamlopt -package zarith -linkpkg -w -a model.mli model.ml driver.ml -o driver
 fi
+exit $rc
